@@ -6,6 +6,7 @@ package main
 // configured port range — and two small balance rules.
 
 import (
+	"fmt"
 	"go/types"
 	"strings"
 
@@ -836,4 +837,318 @@ func rangeStaysValid(w *World, st *ssa.Store, fa *ssa.FieldAddr, name string) bo
 		}
 	})
 	return ok
+}
+
+// ---- C10.8: the stream framer gives up only on a read error or an invalid frame
+func ruleFramerRefusals(c *Ctx, rule string) {
+	w := c.W
+	c.Rule(rule, "STUNConn.ReadFrom returns an error only when reading from the connection failed or consumeSingleTURNFrame reported an invalid frame (closed refusal set): no size or count limit judged on the reassembly buffer plus the latest read can refuse a legal stream — how the stream is cut into reads must not matter", 1)
+	fn := w.Func("proto", "STUNConn", "ReadFrom")
+	ruleRefusals(c, rule, fn, "refusals", nil,
+		func(in ssa.Instruction) bool {
+			switch x := in.(type) {
+			case *ssa.Return:
+				return len(x.Results) == 3 && isNilConst(w.resolveLoad(x.Results[2]))
+			case *ssa.Call:
+				return x.Call.StaticCallee() == fn // reads on: the tail call
+			}
+			return false
+		},
+		func(e refusalEdge) string {
+			// whatever the branch looks like: what is returned on the refusing side is the
+			// error of the connection's Read or the framer's own error, handed on as it is
+			isSource := w.calleeOrWrapper("Read", "consumeSingleTURNFrame")
+			seen := map[*ssa.BasicBlock]bool{}
+			n, ok := 0, true
+			var visit func(b *ssa.BasicBlock)
+			visit = func(b *ssa.BasicBlock) {
+				if seen[b] || !ok {
+					return
+				}
+				seen[b] = true
+				for _, in := range b.Instrs {
+					r, isR := in.(*ssa.Return)
+					if !isR || len(r.Results) == 0 {
+						continue
+					}
+					n++
+					for _, lf := range w.guardedLeaves(r.Results[len(r.Results)-1], r) {
+						v := stripIface(w.resolveLoad(lf.val))
+						if isNilConst(v) {
+							continue
+						}
+						call, _ := callOf(v)
+						if call == nil || !isSource(call) {
+							ok = false
+						}
+					}
+				}
+				for _, s2 := range liveSuccs(b) {
+					visit(s2)
+				}
+			}
+			visit(e.to)
+			if ok && n > 0 {
+				return "hands on the error of the connection's Read or of the framer"
+			}
+			return ""
+		}, "a well-formed stream is refused for some ways of splitting it into reads and accepted for others (the bytes pending plus the bytes just read say nothing about the size of any frame)")
+}
+
+// ---- C09.14: a failed read ends the server's read loop
+func ruleReadLoopEndsOnError(c *Ctx, rule string) {
+	w := c.W
+	c.Rule(rule, "in Server.readLoop no path from the err != nil edge of the loop's ReadFrom leads back to that read: a sticky error (the stream framer's invalid-frame verdict leaves the offending bytes in its buffer) cannot turn the loop into a busy loop", 1)
+	fn := w.Func("turn", "Server", "readLoop")
+	c.Anchor(rule, "readLoop")
+	n := 0
+	w.eachInstr(fn, func(in ssa.Instruction) {
+		call, ok := in.(*ssa.Call)
+		if !ok || !call.Call.IsInvoke() || call.Call.Method.Name() != "ReadFrom" || !instrReaches(call, call) {
+			return
+		}
+		n++
+		var errV ssa.Value
+		for _, r := range *call.Referrers() {
+			if ex, isE := r.(*ssa.Extract); isE && ex.Type().String() == "error" {
+				errV = ex
+			}
+		}
+		if errV == nil {
+			c.Bad(rule, fname(fn), "ReadFrom", w.instrPos(in), "the read's error result is not examined")
+			return
+		}
+		bad := ""
+		for _, b := range fn.Blocks {
+			onErr := false
+			for f := range w.facts(fn).in[b] {
+				if v, isNil, ok := nilFact(f); ok && !isNil && v == errV {
+					onErr = true
+				}
+			}
+			if !onErr || len(b.Instrs) == 0 {
+				continue
+			}
+			if b == call.Block() || instrReaches(b.Instrs[0], call) {
+				bad = w.pos(b.Instrs[0].Pos())
+			}
+		}
+		if bad == "" {
+			c.OK(rule, fname(fn), "ReadFrom", w.instrPos(in), "every path from the read's error edge leaves the loop")
+		} else {
+			c.Bad(rule, fname(fn), "ReadFrom", w.instrPos(in), "after a failed read the loop can read again ("+bad+"): over TCP/TLS the same loop reads through STUNConn, whose invalid-frame error leaves the bytes in its buffer, so the next read fails the same way at once — an unauthenticated peer pins a core with twenty bytes, and the connection is never closed")
+		}
+	})
+	if n == 0 {
+		c.Bad(rule, fname(fn), "ReadFrom", w.pos(fn.Pos()), "no ReadFrom in a loop of readLoop: anchor gone")
+	}
+}
+
+// ---- C12.13: no waiting for a callback while the transaction table is locked
+func ruleNoWaitUnderTrMapLock(c *Ctx, rule string) {
+	w := c.W
+	c.Rule(rule, "nothing waits for another goroutine ((*sync.WaitGroup).Wait) while Client.mutexTrMap is held: the retransmission callback the waiter would wait for starts by taking that lock", 0)
+	li := w.lockInfo()
+	for _, fn := range w.ModFns {
+		w.eachInstr(fn, func(in ssa.Instruction) {
+			call, ok := in.(*ssa.Call)
+			if !ok || call.Call.StaticCallee() == nil || call.Call.StaticCallee().String() != "(*sync.WaitGroup).Wait" {
+				return
+			}
+			if !holds(li.mustAt(call), "turn.Client.mutexTrMap", false) {
+				return
+			}
+			c.Anchor(rule, fname(fn))
+			c.Bad(rule, fname(fn), "WaitGroup.Wait", w.instrPos(in), "waits for running callbacks with Client.mutexTrMap held (every caller holds it here): a retransmission callback that has fired but not yet taken the lock is exactly what is waited for — Close never returns and the transactions it has not reached stay pending for ever")
+		})
+	}
+}
+
+// ---- C13.14: the inbound path takes no lock that is held across a transaction
+func ruleInboundLocksNotHeldAcrossTransactions(c *Ctx, rule string) {
+	w := c.W
+	c.Rule(rule, "UDPConn.HandleInbound (callees included) acquires no lock of a class that some function holds while it performs a transaction (PerformTransaction): the goroutine that delivers inbound data is the one that must deliver the transaction's response", 1)
+	li := w.lockInfo()
+	heldAcross := map[string]string{}
+	// functions that perform a transaction, directly or through what they call
+	reaches := map[*ssa.Function]int{} // 1 yes, 2 no, 3 in progress
+	var performs func(g *ssa.Function, d int) bool
+	performs = func(g *ssa.Function, d int) bool {
+		if r := reaches[g]; r == 1 {
+			return true
+		} else if r != 0 || d > 6 {
+			return false
+		}
+		reaches[g] = 3
+		res := false
+		w.eachInstr(g, func(in ssa.Instruction) {
+			call, ok := in.(*ssa.Call)
+			if !ok || res {
+				return
+			}
+			if call.Call.IsInvoke() && call.Call.Method.Name() == "PerformTransaction" {
+				res = true
+				return
+			}
+			if h := call.Call.StaticCallee(); h != nil {
+				if h.Name() == "PerformTransaction" || (w.IsMod[h] && len(h.Blocks) > 0 && performs(h, d+1)) {
+					res = true
+				}
+			}
+		})
+		if res {
+			reaches[g] = 1
+		} else {
+			reaches[g] = 2
+		}
+		return res
+	}
+	for _, fn := range w.ModFns {
+		if !strings.Contains(fnPkgPath(fn), "/internal/client") {
+			continue
+		}
+		w.eachInstr(fn, func(in ssa.Instruction) {
+			call, ok := in.(*ssa.Call)
+			if !ok {
+				return
+			}
+			blocking := call.Call.IsInvoke() && call.Call.Method.Name() == "PerformTransaction"
+			if h := call.Call.StaticCallee(); h != nil && (h.Name() == "PerformTransaction" || (w.IsMod[h] && len(h.Blocks) > 0 && performs(h, 0))) {
+				blocking = true
+			}
+			if !blocking {
+				return
+			}
+			for k := range li.mustAt(call) {
+				cls := strings.TrimSuffix(strings.TrimSuffix(k, "/W"), "/R")
+				heldAcross[cls] = w.instrPos(call)
+			}
+		})
+	}
+	fn := w.Func("client", "UDPConn", "HandleInbound")
+	c.Anchor(rule, "HandleInbound")
+	bad := ""
+	seen := map[*ssa.Function]bool{}
+	var visit func(g *ssa.Function, d int)
+	visit = func(g *ssa.Function, d int) {
+		if seen[g] || d > 4 {
+			return
+		}
+		seen[g] = true
+		w.eachInstr(g, func(in ssa.Instruction) {
+			call, ok := in.(*ssa.Call)
+			if !ok {
+				return
+			}
+			if lo := w.lockOpOf(&call.Call); lo != nil && (lo.op == "Lock" || lo.op == "RLock") {
+				if at, blocked := heldAcross[lo.class]; blocked && bad == "" {
+					bad = lo.class + " (taken at " + w.instrPos(call) + ", held across the transaction at " + at + ")"
+				}
+			}
+			if h := call.Call.StaticCallee(); h != nil && w.IsMod[h] && len(h.Blocks) > 0 {
+				visit(h, d+1)
+			}
+		})
+	}
+	visit(fn, 0)
+	if bad == "" {
+		c.OK(rule, fname(fn), "locks", w.pos(fn.Pos()), fmt.Sprintf("acquires none of the %d lock classes held across transactions", len(heldAcross)))
+	} else {
+		c.Bad(rule, fname(fn), "locks", w.pos(fn.Pos()), "the inbound path takes "+bad+": while that transaction is in flight the Listen goroutine blocks here, and it is the goroutine that has to deliver the transaction's response — the inbound path stalls until every retransmission has timed out")
+	}
+}
+
+// ---- C13.15: the client is told once that a relayed conn is gone
+func ruleDeallocatedOnce(c *Ctx, rule string) {
+	w := c.W
+	c.Rule(rule, "UDPConn.Close reports OnDeallocated only after it has closed closeCh itself (the call is dominated by the close of the channel on the not-yet-closed path): a second Close of an old conn cannot de-register the client's current relayed conn", 1)
+	fn := w.Func("client", "UDPConn", "Close")
+	c.Anchor(rule, "Close")
+	var closes []*ssa.Call
+	var reports []*ssa.Call
+	w.eachInstrDeep(fn, func(in ssa.Instruction) {
+		call, ok := in.(*ssa.Call)
+		if !ok {
+			return
+		}
+		if b, isB := call.Call.Value.(*ssa.Builtin); isB && b.Name() == "close" {
+			closes = append(closes, call)
+		}
+		if call.Call.IsInvoke() && call.Call.Method.Name() == "OnDeallocated" {
+			reports = append(reports, call)
+		}
+	})
+	if len(reports) == 0 {
+		c.Bad(rule, fname(fn), "OnDeallocated", w.pos(fn.Pos()), "Close no longer reports OnDeallocated: anchor gone")
+		return
+	}
+	for _, r := range reports {
+		ok := false
+		for _, cl := range closes {
+			if cl.Parent() == r.Parent() && instrDominates(cl, r) {
+				ok = true
+			}
+		}
+		if ok {
+			c.OK(rule, fname(fn), "OnDeallocated", w.instrPos(r), "after the conn closed closeCh itself")
+		} else {
+			c.Bad(rule, fname(fn), "OnDeallocated", w.instrPos(r), "OnDeallocated is reported on every Close, also on a conn that was closed before: Client.OnDeallocated clears whatever relayed conn the client holds now, so closing an old conn again silences the live allocation — its Data indications and ChannelData are dropped as \"no relayed conn\"")
+		}
+	}
+}
+
+// ---- C05.12: nobody appends onto a shortened view of bytes it was handed
+func ruleNoAppendOntoCallersBytes(c *Ctx, rule string) {
+	w := c.W
+	c.Rule(rule, "in packages allocation, server and proto no function appends onto a shortened view p[:k] of a byte slice it received as a parameter or receiver, unless the resulting slice is what it returns (an append-style API): such an append writes into the caller's memory behind k — for the relay that memory is the datagram still to be forwarded", 0)
+	pkgs := map[string]bool{w.tpkg("server").Path(): true, w.tpkg("allocation").Path(): true, w.tpkg("proto").Path(): true}
+	for _, fn := range w.ModFns {
+		if !pkgs[fnPkgPath(fn)] {
+			continue
+		}
+		w.eachInstr(fn, func(in ssa.Instruction) {
+			call, ok := in.(*ssa.Call)
+			if !ok {
+				return
+			}
+			b, isB := call.Call.Value.(*ssa.Builtin)
+			if !isB || b.Name() != "append" || len(call.Call.Args) < 1 {
+				return
+			}
+			sl, isS := stripIface(call.Call.Args[0]).(*ssa.Slice)
+			if !isS || sl.High == nil {
+				return
+			}
+			if k, isK := constInt(sl.High); isK && k == 0 {
+				return // p[:0]: reuse of a buffer the caller hands over for that purpose
+			}
+			base := stripIface(sl.X)
+			for i := 0; i < 4; i++ {
+				if ct, isCT := base.(*ssa.ChangeType); isCT {
+					base = ct.X
+					continue
+				}
+				break
+			}
+			p, isP := base.(*ssa.Parameter)
+			if !isP {
+				return
+			}
+			if el, isSl := p.Type().Underlying().(*types.Slice); !isSl || el.Elem().String() != "byte" && el.Elem().String() != "uint8" {
+				return
+			}
+			// returned as the slice? (append-style API)
+			returned := false
+			for _, r := range *call.Referrers() {
+				if _, isR := r.(*ssa.Return); isR {
+					returned = true
+				}
+			}
+			if returned {
+				return
+			}
+			c.Anchor(rule, fname(fn))
+			c.Bad(rule, fname(fn), "append", w.instrPos(in), "appends onto "+p.Name()+"[:k], a shortened view of bytes this function was handed, and does not return the slice: the bytes behind k in the caller's buffer are overwritten (a log preview built on the relay's read buffer alters the payload that is forwarded next)")
+		})
+	}
 }
